@@ -68,14 +68,179 @@ class ShapeExpr:
         raise ValueError(f"shape expression {ast.unparse(n)}")
 
 
-def resolve_partial(func, name):
-    """`_func = partial(X, ...)` -> X"""
+def local_bindings(func):
+    """name -> list of values bound to it by plain assignments anywhere in `func` (nested functions included)"""
+    out = {}
     for n in ast.walk(func):
-        if isinstance(n, ast.Assign) and len(n.targets) == 1 and isinstance(n.targets[0], ast.Name) \
-                and n.targets[0].id == name and isinstance(n.value, ast.Call) \
-                and call_name(n.value.func) == "partial" and n.value.args and isinstance(n.value.args[0], ast.Name):
-            return n.value.args[0].id
-    return name
+        if isinstance(n, ast.Assign):
+            for t in n.targets:
+                if isinstance(t, ast.Name):
+                    out.setdefault(t.id, []).append(n.value)
+                elif isinstance(t, ast.Tuple) and isinstance(n.value, ast.Tuple) and len(t.elts) == len(n.value.elts):
+                    for a, b in zip(t.elts, n.value.elts):
+                        if isinstance(a, ast.Name):
+                            out.setdefault(a.id, []).append(b)
+                elif isinstance(t, (ast.Tuple, ast.List)):
+                    for a in ast.walk(t):
+                        if isinstance(a, ast.Name):
+                            out.setdefault(a.id, []).append(None)
+        elif isinstance(n, (ast.AugAssign, ast.AnnAssign)) and isinstance(n.target, ast.Name):
+            out.setdefault(n.target.id, []).append(getattr(n, "value", None) if isinstance(n, ast.AnnAssign) else None)
+        elif isinstance(n, (ast.For, ast.comprehension)):
+            for a in ast.walk(n.target):
+                if isinstance(a, ast.Name):
+                    out.setdefault(a.id, []).append(None)
+        elif isinstance(n, ast.NamedExpr) and isinstance(n.target, ast.Name):
+            out.setdefault(n.target.id, []).append(None)
+    return out
+
+
+def resolve_callable(func, node, depth=0):
+    """the function a callable expression inside `func` denotes, looking through
+         `partial(F, ...)` / `functools.partial(F, ...)` (nested too) and through local names bound exactly once
+         (`_func = partial(F, ...)`, `blk = F`).
+       -> name of a function (module-level, imported or nested `def`), or None when the expression is anything else
+          (lambda, call of a higher-order helper, name bound more than once, parameter ...)."""
+    if depth > 6 or node is None:
+        return None
+    if isinstance(node, ast.Call) and call_name(node.func) == "partial" and node.args \
+            and (isinstance(node.func, ast.Name) or ast.unparse(node.func) == "functools.partial"):
+        return resolve_callable(func, node.args[0], depth + 1)
+    if isinstance(node, ast.Name):
+        vals = local_bindings(func).get(node.id)
+        if vals is None:
+            params = {a.arg for a in func.args.args + func.args.kwonlyargs + func.args.posonlyargs}
+            if func.args.vararg:
+                params.add(func.args.vararg.arg)
+            if func.args.kwarg:
+                params.add(func.args.kwarg.arg)
+            return None if node.id in params else node.id      # a module-level / imported / nested function
+        if len(vals) == 1 and vals[0] is not None:
+            return resolve_callable(func, vals[0], depth + 1)
+        return None
+    return None
+
+
+def resolve_partial(func, name):
+    """kept for callers outside this module: `_func = partial(X, ...)` -> X"""
+    return resolve_callable(func, ast.Name(id=name, ctx=ast.Load())) or name
+
+
+def dask_array_aliases(mod):
+    """names under which the module `dask.array` is visible (`import dask.array as da`)"""
+    out = set()
+    for st in mod.body:
+        if isinstance(st, ast.Import):
+            for a in st.names:
+                if a.name == "dask.array" and a.asname:
+                    out.add(a.asname)
+        elif isinstance(st, ast.ImportFrom) and st.module == "dask":
+            for a in st.names:
+                if a.name == "array":
+                    out.add(a.asname or "array")
+    return out
+
+
+def qualify(mod, rel, dask_fn, name):
+    """`module.function` as the effect summaries (facts_effects.py) name it"""
+    modname = os.path.splitext(os.path.basename(rel))[0]
+    if find_func(mod, name) is not None:
+        return f"{modname}.{name}"
+    for n in ast.walk(dask_fn):
+        if n is not dask_fn and isinstance(n, ast.FunctionDef) and n.name == name:
+            return f"{modname}.{dask_fn.name}.{name}"
+    for st in mod.body:
+        if isinstance(st, ast.ImportFrom) and st.module:
+            for a in st.names:
+                if (a.asname or a.name) == name:
+                    return f"{st.module.split('.')[-1]}.{a.name}"
+    return "?"
+
+
+def in_loop_or_nested(func, target):
+    """is `target` (a node inside `func`) inside a loop, a comprehension, a lambda or a nested function?"""
+    def go(n, inside):
+        if n is target:
+            return inside
+        for ch in ast.iter_child_nodes(n):
+            inner = inside or (n is not func and isinstance(n, (ast.FunctionDef, ast.Lambda))) \
+                or isinstance(n, (ast.For, ast.While, ast.ListComp, ast.SetComp, ast.DictComp, ast.GeneratorExp))
+            r = go(ch, inner)
+            if r is not None:
+                return r
+        return None
+    return bool(go(func, False))
+
+
+def block_call(mod, df, kinds):
+    """the one `map_overlap` / `map_blocks` call of a Dask code path, normalised:
+         x.map_overlap(f, depth=..., boundary=...)        method form (positional depth / boundary accepted)
+         da.map_overlap(f, x, depth=..., boundary=...)    function form (`da` = an alias of dask.array)
+       -> dict(call, kind, func, depth, boundary, arrays) ; raises ValueError when there is not exactly one such call or its
+          shape is not one of the two above."""
+    calls = [n for n in ast.walk(df) if isinstance(n, ast.Call) and call_name(n.func) in kinds]
+    if not calls:
+        raise ValueError("no " + "/".join(kinds) + " call")
+    if len(calls) > 1:
+        raise ValueError(f"{len(calls)} {'/'.join(kinds)} calls")
+    call = calls[0]
+    if any(isinstance(a, ast.Starred) for a in call.args) or any(k.arg is None for k in call.keywords):
+        raise ValueError("starred arguments")
+    aliases = dask_array_aliases(mod)
+    f = call.func
+    if isinstance(f, ast.Attribute) and ((isinstance(f.value, ast.Name) and f.value.id in aliases)
+                                         or ast.unparse(f.value) == "dask.array"):
+        form = "function"
+    elif isinstance(f, ast.Name) or (isinstance(f, ast.Attribute) and "overlap" in ast.unparse(f.value).split(".")):
+        # `from ... import map_overlap` / `da.overlap.map_overlap`: the argument order differs between dask's entry points
+        raise ValueError(f"unrecognised spelling {ast.unparse(f)}")
+    elif isinstance(f, ast.Attribute):
+        form = "method"
+    else:
+        raise ValueError("call shape")
+    kind = call_name(f)
+    fn = kwarg(call, "func") or (call.args[0] if call.args else None)
+    pos = list(call.args[(0 if kwarg(call, "func") is not None else 1):])
+    depth, boundary = kwarg(call, "depth"), kwarg(call, "boundary")
+    arrays = []
+    if form == "method":
+        arrays = [f.value]
+        if kind == "map_overlap":
+            # Array.map_overlap(func, depth, boundary=None, trim=True, **kwargs)
+            if pos and depth is None:
+                depth = pos.pop(0)
+            if pos and boundary is None:
+                boundary = pos.pop(0)
+            if pos:
+                raise ValueError("extra positional arguments")
+        # Array.map_blocks(func, *args): further positionals are arguments of the block function
+    else:
+        arrays = pos
+    return dict(call=call, kind=kind, func=fn, depth=depth, boundary=boundary, arrays=arrays,
+                looped=in_loop_or_nested(df, call))
+
+
+def mapping_params(repo):
+    """positional order of ArrayTypeFunctionMapping's constructor, read from utils.py"""
+    try:
+        mod = parse(repo, "xrspatial/utils.py")
+    except (OSError, SyntaxError):
+        return []
+    for st in mod.body:
+        if isinstance(st, ast.ClassDef) and st.name == "ArrayTypeFunctionMapping":
+            for m in st.body:
+                if isinstance(m, ast.FunctionDef) and m.name == "__init__":
+                    return [a.arg for a in m.args.args[1:]]
+    return []
+
+
+def mapping_arg(repo, call, name):
+    v = kwarg(call, name)
+    if v is None:
+        order = mapping_params(repo)
+        if name in order and order.index(name) < len(call.args):
+            v = call.args[order.index(name)]
+    return v
 
 
 def kwarg(call, name):
@@ -85,17 +250,26 @@ def kwarg(call, name):
     return None
 
 
-def numpy_func_of(mod, public):
-    """the numpy_func the public wrapper dispatches to"""
+def mapping_func_of(mod, public, which, repo):
+    """the function the public wrapper's (single) ArrayTypeFunctionMapping registers for backend `which`"""
     f = find_func(mod, public)
     if f is None:
         return None
-    for n in ast.walk(f):
-        if isinstance(n, ast.Call) and call_name(n.func) == "ArrayTypeFunctionMapping":
-            v = kwarg(n, "numpy_func")
-            if isinstance(v, ast.Name):
-                return v.id
+    calls = [n for n in ast.walk(f) if isinstance(n, ast.Call) and call_name(n.func) == "ArrayTypeFunctionMapping"]
+    if len(calls) != 1:
+        return None
+    v = mapping_arg(repo, calls[0], which)
+    if isinstance(v, ast.Name):
+        return v.id
     return None
+
+
+def numpy_func_of(mod, public, repo="/repo"):
+    """the numpy_func the public wrapper dispatches to"""
+    return mapping_func_of(mod, public, "numpy_func", repo)
+
+
+TYPE_SPELLINGS = {"np.ndarray": ("np.ndarray", "numpy.ndarray"), "da.Array": ("da.Array", "dask.array.Array")}
 
 
 def isinstance_branch(mod, public, typ):
@@ -105,7 +279,7 @@ def isinstance_branch(mod, public, typ):
         return None
     for n in ast.walk(f):
         if isinstance(n, ast.If) and isinstance(n.test, ast.Call) and call_name(n.test.func) == "isinstance" \
-                and len(n.test.args) == 2 and ast.unparse(n.test.args[1]) == typ:
+                and len(n.test.args) == 2 and ast.unparse(n.test.args[1]) in TYPE_SPELLINGS.get(typ, (typ,)):
             for st in n.body:
                 if isinstance(st, ast.Assign) and isinstance(st.value, ast.Call) and isinstance(st.value.func, ast.Name):
                     return st.value.func.id
@@ -116,16 +290,8 @@ def called_names(func):
     return sorted({n.func.id for n in ast.walk(func) if isinstance(n, ast.Call) and isinstance(n.func, ast.Name)})
 
 
-def dask_func_of(mod, public):
-    f = find_func(mod, public)
-    if f is None:
-        return None
-    for n in ast.walk(f):
-        if isinstance(n, ast.Call) and call_name(n.func) == "ArrayTypeFunctionMapping":
-            v = kwarg(n, "dask_func")
-            if isinstance(v, ast.Name):
-                return v.id
-    return None
+def dask_func_of(mod, public, repo="/repo"):
+    return mapping_func_of(mod, public, "dask_func", repo)
 
 
 def eager_calls(func):
@@ -161,15 +327,51 @@ RADIUS_FUNCS = [
 ]
 
 
+
+def mean_passes_fact(repo):
+    """`focal.mean(agg, passes)` on a Dask raster = `passes` x (one map_overlap of the one-pass kernel)?
+
+       loopInPublic   mean(): out = agg.data...; for _ in range(passes): out = _mean(out, excludes); DataArray(out, ...)
+                      (facts_focal.mean_loop_fact -- the same fact Gen/Focal.lean carries as `mean_iterates_passes`)
+       dispatchOnce   _mean(data, excludes): one ArrayTypeFunctionMapping; the selected backend function is called exactly
+                      once, outside any loop, with (the data, excludes), and its value is what `_mean` returns
+       (that the Dask backend function holds exactly one map_overlap of the one-pass kernel is `mean_overlap.once` and
+        `mean_overlap.blockFunc == mean_overlap.numpyFunc`)"""
+    import facts_focal
+    rep = {}
+    loop = disp = False
+    try:
+        mod = parse(repo, "xrspatial/focal.py")
+        loop, src, why = facts_focal.mean_loop_fact(mod)
+        rep["loop"] = src if loop else "not recognised: " + why
+        disp, dsrc, dwhy = facts_focal.mean_dispatch_fact(mod)
+        rep["dispatch"] = dsrc if disp else "not recognised: " + dwhy
+    except (ValueError, OSError, SyntaxError) as ex:
+        rep["error"] = str(ex)
+    text = ("/-- how `focal.mean` runs its passes (see facts_dask.mean_passes_fact) -/\n"
+            "structure MeanPassesFact where\n"
+            "  /-- `mean()`: the float raster, then `for _ in range(passes): out = _mean(out, excludes)`, then `DataArray(out, …)` -/\n"
+            "  loopInPublic : Bool\n"
+            "  /-- `_mean`: the backend function selected by the mapping is called exactly once, outside any loop, with\n"
+            "      (data, excludes), and its value is returned -/\n"
+            "  dispatchOnce : Bool\n\n"
+            f"def mean_passes_fact : MeanPassesFact := {{ loopInPublic := {'true' if loop else 'false'}, "
+            f"dispatchOnce := {'true' if disp else 'false'} }}\n")
+    rep.update(loopInPublic=loop, dispatchOnce=disp)
+    return text, rep
+
+
 def overlap_facts(repo):
     out = ["/-! GENERATED by harness/facts_dask.py from the current /repo source -- do not edit. -/",
            "namespace XrsVerif.Gen", "",
            "structure OverlapFact where",
            "  op : String",
            "  ok : Bool                    -- the expected code shape was found",
-           "  blockFunc : String           -- function mapped over the blocks",
+           "  blockFunc : String           -- function mapped over the blocks (looked up through partial(...) / a local alias)",
+           "  blockQual : String           -- the same, as `module.function` (key of the effect summaries in Gen/Effects.lean)",
            "  numpyFunc : String           -- function the NumPy backend applies to the whole raster",
            "  numpyCalls : List String     -- functions that one calls by name (thin wrappers around the kernel)",
+           "  once : Bool                  -- the Dask path holds exactly one map_overlap call, outside any loop / nested function",
            "  depth : Nat → Nat → Nat × Nat -- halo depth as a function of the kernel shape (rows, cols)",
            "  boundaryNaN : Bool",
            "  eager : List String          -- eager calls (compute/persist/asarray…) on the dask path",
@@ -178,12 +380,13 @@ def overlap_facts(repo):
     names = []
     for op, rel, public, dask_name, numpy_name, block_expected in OVERLAP_OPS:
         ok, block, npf, depth, bnan, eager, ncalls = True, "?", "?", "fun _ _ => (0, 0)", False, [], []
+        bqual, once = "?", False
         why = ""
         try:
             mod = parse(repo, rel)
             if public is not None:
-                npf = numpy_func_of(mod, public) or isinstance_branch(mod, public, "np.ndarray") or "?"
-                dn = dask_func_of(mod, public) or isinstance_branch(mod, public, "da.Array")
+                npf = numpy_func_of(mod, public, repo) or isinstance_branch(mod, public, "np.ndarray") or "?"
+                dn = dask_func_of(mod, public, repo) or isinstance_branch(mod, public, "da.Array")
                 if dn is not None:
                     dask_name_eff = dn
                 else:
@@ -194,18 +397,15 @@ def overlap_facts(repo):
             df = find_func(mod, dask_name_eff)
             if df is None:
                 raise ValueError(f"dask function {dask_name_eff} not found")
-            call = None
-            for n in ast.walk(df):
-                if isinstance(n, ast.Call) and call_name(n.func) == "map_overlap":
-                    call = n
-            if call is None:
-                raise ValueError("no map_overlap call")
-            farg = call.args[0] if call.args else None
-            if isinstance(n := farg, ast.Name):
-                block = resolve_partial(df, n.id)
-            else:
-                raise ValueError("block function is not a name")
-            d = kwarg(call, "depth")
+            bc = block_call(mod, df, ("map_overlap",))
+            call = bc["call"]
+            once = not bc["looped"]
+            block = resolve_callable(df, bc["func"])
+            if block is None:
+                block = "?"
+                raise ValueError("block function is not a (partially applied) named function: " + ast.unparse(bc["func"])[:60])
+            bqual = qualify(mod, rel, df, block)
+            d = bc["depth"]
             se = ShapeExpr(df)
             # a local name bound once to the depth expression (`halo = (1, 1)`; `depth = {0: 1, 1: 1}`)
             for _ in range(4):
@@ -228,7 +428,7 @@ def overlap_facts(repo):
             else:
                 body = f" ({pair[0]}, {pair[1]})"
                 depth = "fun " + ("kr" if "kr" in body else "_") + " " + ("kc" if "kc" in body else "_") + " =>" + body
-            b = kwarg(call, "boundary")
+            b = bc["boundary"]
             if isinstance(b, ast.Name) and b.id in se.defs:
                 b = se.defs[b.id]
             bnan = (isinstance(b, ast.Attribute) and b.attr == "nan"
@@ -243,12 +443,18 @@ def overlap_facts(repo):
         lean = f"{op}_overlap"
         names.append(lean)
         out.append(f"def {lean} : OverlapFact := {{\n  op := {lean_str(op)}\n  ok := {'true' if ok else 'false'}\n"
-                   f"  blockFunc := {lean_str(block)}\n  numpyFunc := {lean_str(npf or '?')}\n"
+                   f"  blockFunc := {lean_str(block)}\n  blockQual := {lean_str(bqual)}\n"
+                   f"  numpyFunc := {lean_str(npf or '?')}\n"
                    f"  numpyCalls := [{', '.join(lean_str(e) for e in ncalls)}]\n"
+                   f"  once := {'true' if once else 'false'}\n"
                    f"  depth := {depth}\n  boundaryNaN := {'true' if bnan else 'false'}\n"
                    f"  eager := [{', '.join(lean_str(e) for e in eager)}]\n}}\n")
-        rep[op] = dict(ok=ok, why=why, block=block, numpy=npf, depth=depth, boundary_nan=bnan, eager=eager)
+        rep[op] = dict(ok=ok, why=why, block=block, block_qual=bqual, once=once, numpy=npf, depth=depth, boundary_nan=bnan,
+                       eager=eager)
     out.append("def allOverlapFacts : List OverlapFact := [" + ", ".join(names) + "]\n")
+    mtext, mrep = mean_passes_fact(repo)
+    out.append(mtext)
+    rep["mean_passes"] = mrep
     # radii
     for name, rel, fn, (rv, cv) in RADIUS_FUNCS:
         try:
@@ -352,30 +558,43 @@ def blocks_facts(repo):
            "structure BlocksFact where",
            "  op : String",
            "  ok : Bool",
-           "  blockFunc : String           -- function mapped over the blocks",
+           "  blockFunc : String           -- function mapped over the blocks (looked up through partial(...) / a local alias)",
+           "  blockQual : String           -- the same, as `module.function` (key of the effect summaries in Gen/Effects.lean)",
            "  numpyFunc : String           -- what the NumPy backend runs on the whole raster",
            "  numpyReaches : List String   -- functions reachable by name from numpyFunc (depth 3)",
            "  depthless : Bool             -- map_blocks, not map_overlap",
            "  eager : List String", ""]
     rep, names = {}, []
     for op, rel, dname, nname in BLOCKS_OPS:
-        ok, block, reaches, eager, depthless = True, "?", [], [], False
+        ok, block, reaches, eager, depthless, bqual = True, "?", [], [], False, "?"
         try:
             mod = parse(repo, rel)
             df = find_func(mod, dname)
             if df is None or find_func(mod, nname) is None:
                 raise ValueError("function not found")
-            call = None
-            for n in ast.walk(df):
-                if isinstance(n, ast.Call) and call_name(n.func) in ("map_blocks", "map_overlap"):
-                    call = n
-            if call is None:
+            bcs = [n for n in ast.walk(df) if isinstance(n, ast.Call) and call_name(n.func) in ("map_blocks", "map_overlap")]
+            if not bcs:
                 raise ValueError("no map_blocks call")
-            depthless = call_name(call.func) == "map_blocks"
-            farg = call.args[0] if call.args else None
-            if not isinstance(farg, ast.Name):
-                raise ValueError("block function is not a name")
-            block = resolve_partial(df, farg.id)
+            # a path may map the same block function several times (terrain: one noise layer per octave, in a loop):
+            # every call must name the same function
+            blocks = set()
+            depthless = True
+            for bcall in bcs:
+                if any(isinstance(a, ast.Starred) for a in bcall.args):
+                    raise ValueError("starred arguments")
+                f0 = bcall.func
+                if not (isinstance(f0, ast.Attribute) and not ("overlap" in ast.unparse(f0.value).split("."))):
+                    raise ValueError(f"unrecognised spelling {ast.unparse(f0)}")
+                depthless = depthless and call_name(f0) == "map_blocks"
+                farg = kwarg(bcall, "func") or (bcall.args[0] if bcall.args else None)
+                b1 = resolve_callable(df, farg)
+                if b1 is None:
+                    raise ValueError("block function is not a (partially applied) named function: " + ast.unparse(farg)[:60])
+                blocks.add(b1)
+            if len(blocks) != 1:
+                raise ValueError(f"several block functions: {sorted(blocks)}")
+            block = blocks.pop()
+            bqual = qualify(mod, rel, df, block)
             reaches = reach(mod, nname)
             eager = eager_calls(df)
         except (ValueError, OSError) as ex:
@@ -384,11 +603,11 @@ def blocks_facts(repo):
         lean = f"{op}_blocks"
         names.append(lean)
         out.append(f"def {lean} : BlocksFact := {{\n  op := {lean_str(op)}\n  ok := {'true' if ok else 'false'}\n"
-                   f"  blockFunc := {lean_str(block)}\n  numpyFunc := {lean_str(nname)}\n"
+                   f"  blockFunc := {lean_str(block)}\n  blockQual := {lean_str(bqual)}\n  numpyFunc := {lean_str(nname)}\n"
                    f"  numpyReaches := [{', '.join(lean_str(e) for e in reaches)}]\n"
                    f"  depthless := {'true' if depthless else 'false'}\n"
                    f"  eager := [{', '.join(lean_str(e) for e in eager)}]\n}}\n")
-        rep.setdefault(op, dict(block=block, reaches=reaches, eager=eager))
+        rep.setdefault(op, dict(block=block, block_qual=bqual, reaches=reaches, eager=eager))
     out.append("def allBlocksFacts : List BlocksFact := [" + ", ".join(names) + "]\n")
     out.append("end XrsVerif.Gen")
     return "Blocks.lean", "\n".join(out) + "\n", rep
